@@ -96,7 +96,7 @@ func (iph *IPHashConsistentStrategy) NextBackend(r *http.Request) *Backend {
 
 	// If X-Forwarded-For has multiple IPs, take the first one.
 	if strings.Contains(ipStr, ",") {
-		ipStr = strings.Split(ipStr, ",")[0]
+		ipStr = strings.TrimSpace(strings.Split(ipStr, ",")[0])
 	}
 
 	// Hash the IP address
